@@ -47,6 +47,7 @@ var reviewedMapLoops = map[string]struct {
 	"geom.(nodeSet).list":                                       {"geom.(nodeSet).list", "the listed nodes are sorted before they are handed to the spatial index (the distance sort of the cut points has ties, so the list order would otherwise reach the output)"},
 	"geom.(graph).hasCycle":                                     {"", "pure existence test"},
 	"geom.(MultiLineString).Boundary":                           {"", "counts are accumulated in a map but emitted in first-occurrence order from a slice"},
+	"geom.(*GeoJSONFeature).UnmarshalJSON":                      {"", "the error returned from inside the loop over the foreign members cannot occur: every member is a json.RawMessage that already parsed as part of the enclosing document, and decoding valid JSON into interface{} does not fail; the members themselves are stored keyed by their name"},
 }
 
 func runC10Order(c *Ctx) {
@@ -83,7 +84,24 @@ func runC10Order(c *Ctx) {
 			}
 			h := next.Block()
 			var sensitive []string
+			// the body's entry: the successor taken when Next reports another element; a block
+			// it dominates runs only inside an iteration, also when it leaves the function
+			var bodyEntry *ssa.BasicBlock
+			if ifi, ok := h.Instrs[len(h.Instrs)-1].(*ssa.If); ok && len(h.Succs) == 2 {
+				if ex, ok := ifi.Cond.(*ssa.Extract); ok && ex.Tuple == ssa.Value(next) && ex.Index == 0 {
+					bodyEntry = h.Succs[0]
+				}
+			}
 			for _, b := range f.Blocks {
+				if b != h && bodyEntry != nil && bodyEntry.Dominates(b) && !reaches(b, h, nil) {
+					if x, ok := b.Instrs[len(b.Instrs)-1].(*ssa.Return); ok {
+						for _, rv := range x.Results {
+							if computedFrom(rv, func(v ssa.Value) bool { return v == ssa.Value(next) }) {
+								sensitive = append(sensitive, "returns a value computed from the element of whichever iteration comes first at "+c.P.Pos(x.Pos()))
+							}
+						}
+					}
+				}
 				if b == h || !h.Dominates(b) || !reaches(b, h, nil) {
 					continue
 				}
@@ -214,7 +232,12 @@ func runC10Order(c *Ctx) {
 				sf := c.P.Func(rev.needSortIn)
 				found := false
 				if sf != nil {
-					for _, g := range append([]*ssa.Function{sf}, allAnon(sf)...) {
+					var where []*ssa.Function
+					for _, g := range withNewHelpers(sf) {
+						where = append(where, g)
+						where = append(where, allAnon(g)...)
+					}
+					for _, g := range where {
 						eachCall(g, func(call ssa.CallInstruction) {
 							if strings.HasPrefix(calleeName(call), "sort.") {
 								found = true
